@@ -99,6 +99,7 @@ pub fn site_name(site: usize) -> &'static str {
         hooks::SITE_SCANNER_READ => "Scanner::read",
         hooks::SITE_ZINC_LEXER_READ => "zinc Lexer::read",
         hooks::SITE_FILTER_LEXER_READ => "filter Lexer::read",
+        hooks::SITE_LOOP => "decoder loop iteration",
         _ => "?",
     }
 }
